@@ -44,11 +44,16 @@ impl Vector {
             start = v.len();
         }
 
-        let mut end = end.unwrap_or(v.len() - 1);
-        if end >= v.len() {
-            end = v.len() - 1;
+        // end is inclusive; an empty range (empty vector, or start == len)
+        // yields an empty vector
+        let end = match end {
+            Some(end) => (end + 1).min(v.len()),
+            None => v.len(),
+        };
+        if start >= end {
+            return vec![];
         }
 
-        Vec::from(&v[start..=end])
+        Vec::from(&v[start..end])
     }
 }
